@@ -235,6 +235,11 @@ fn ns_elem_name(rng: &mut Rng, ns: usize) -> usize {
 /// `tidy`: only names that can be written in this scope (so that `to_string` succeeds and the
 /// text means the tree: the serialisation half of C15 needs such layouts).
 fn elem_name(rng: &mut Rng, scope: &BTreeMap<usize, usize>, tidy: bool) -> usize {
+    // an element whose own name is in the XML namespace (xml:space, xml:id, xml:lang as ELEMENT
+    // names): always writable with the reserved prefix, never unresolved (seed C09d)
+    if rng.chance(1, 12) {
+        return *rng.pick(&[0usize, 1, 15]);
+    }
     let bound: Vec<usize> = scope.values().copied().filter(|n| NSS.contains(n)).collect();
     if tidy {
         let mut ok = bound.clone();
